@@ -910,8 +910,25 @@ func runHistory(run *emit.Run, idx int, hostile bool, script *scripted) {
 				run.Violate(id, fmt.Sprintf("%s was refused (class %d) but the state changed", o.kind, class), replay)
 			}
 		}
-		w.oracle(run, o, class, preLic, now, prev, cur, replay)
-		w.oracleExt(run, o, class, pr, prev, cur, replay)
+		if script != nil && script.PremiseViolated {
+			// demonstration only: does the real module account hold less than the licences promise?
+			all, _ := e.paloma.AllLightNodeClientLicenses(e.ctx)
+			sum := new(big.Int)
+			for _, l := range all {
+				if l.Amount.Denom == bondDenom {
+					sum.Add(sum, l.Amount.Amount.BigInt())
+				}
+			}
+			if e.bank.GetBalance(e.ctx, e.escrow, bondDenom).Amount.BigInt().Cmp(sum) < 0 {
+				run.Count("premise shown necessary", "funder = module account: real escrow < licences")
+			}
+			if o.kind == "Register" && class == 6 {
+				run.Count("premise shown necessary", "funder = module account: a licensee cannot activate (insufficient funds)")
+			}
+		} else {
+			w.oracle(run, o, class, preLic, now, prev, cur, replay)
+			w.oracleExt(run, o, class, pr, prev, cur, replay)
+		}
 		if class == 0 {
 			switch o.kind {
 			case "AddLicence", "Sale":
